@@ -1,6 +1,7 @@
 // C09: stacks are linearizable LIFO stacks, with or without elimination (DESIGN.md 9/C09)
 // C10: FCDeque is a linearizable double-ended queue (FAMILY 3)
 #include "cont.h"
+#include "seq.h"
 #include "smr_holders.h"
 
 #ifndef FAMILY
@@ -69,6 +70,8 @@ struct StackAdapter
             h.ret( i, ok ); break;
         }
         case POP: { int i = h.call( t, POP ); Payload v; bool ok = s->pop( v ); h.ret( i, ok, ok ? v.read() : 0 ); break; }
+        case EMPTY: { int i = h.call( t, EMPTY ); h.ret( i, s->empty() ? 1 : 0 ); break; }
+        case CLEAR: { int i = h.call( t, CLEAR ); s->clear(); h.ret( i, 1 ); break; }
         default: break;
         }
     }
@@ -101,6 +104,9 @@ struct DequeAdapter
         case PUSH_B: { int i = h.call( t, PUSH_B, op.a ); Payload pl( op.a ); bool ok = (( op.a + cfg.flip ) & 1 ) ? d->push_back( pl ) : d->push_back( std::move( pl )); h.ret( i, ok ); break; }
         case POP_F: { int i = h.call( t, POP_F ); Payload v; bool ok = d->pop_front( v ); h.ret( i, ok, ok ? v.read() : 0 ); break; }
         case POP_B: { int i = h.call( t, POP_B ); Payload v; bool ok = d->pop_back( v ); h.ret( i, ok, ok ? v.read() : 0 ); break; }
+        case EMPTY: { int i = h.call( t, EMPTY ); h.ret( i, d->empty() ? 1 : 0 ); break; }
+        case SIZE: { int i = h.call( t, SIZE ); h.ret( i, long( d->size())); break; }
+        case CLEAR: { int i = h.call( t, CLEAR ); d->clear(); h.ret( i, 1 ); break; }
         default: break;
         }
     }
@@ -123,6 +129,11 @@ template <class Adapter>
 void add_stack_family( std::string base, int collision, int step, int bq = 2, int bt = 3, int bq3 = 2, int bt3 = 2, int bqe = 2, int bte = 3, int flip = 0 )
 {
     if ( flip ) base += "/flip";
+    if ( vh::property() == "C20" ) {
+        std::vector<POp> a = { { PUSH, 1, 0 }, { PUSH, 2, 0 }, { POP, 0, 0 }, { EMPTY, 0, 0 }, { CLEAR, 0, 0 } };
+        add_seq_generic<Adapter, SCfg>( g_scen, base, SCfg{ 1, collision, flip }, a, { TProg(), { { PUSH, 7, 0 }, { PUSH, 8, 0 }, { PUSH, 9, 0 } } }, 5, 7 );
+        return;
+    }
     std::vector<POp> alpha = { { PUSH, 0, 0 }, { POP, 0, 0 } };
     std::vector<TProg> seqs = sequences( alpha, 2 );
     std::vector<TProg> prefixes = { {}, { { PUSH, 91, 0 } }, { { PUSH, 91, 0 }, { PUSH, 92, 0 } } };
@@ -154,6 +165,11 @@ template <class Adapter>
 void add_deque_family( std::string base, int passes, int step, int bq, int bt, int flip = 0 )
 {
     if ( flip ) base += "/flip";
+    if ( vh::property() == "C20" ) {
+        std::vector<POp> a = { { PUSH_F, 1, 0 }, { PUSH_F, 2, 0 }, { PUSH_B, 3, 0 }, { PUSH_B, 4, 0 }, { POP_F, 0, 0 }, { POP_B, 0, 0 }, { EMPTY, 0, 0 }, { SIZE, 0, 0 }, { CLEAR, 0, 0 } };
+        add_seq_generic<Adapter, SCfg>( g_scen, base, SCfg{ 1, passes, flip }, a, { TProg(), { { PUSH_B, 7, 0 }, { PUSH_B, 8, 0 }, { PUSH_F, 9, 0 } } }, 4, 5 );
+        return;
+    }
     std::vector<POp> alpha = { { PUSH_F, 0, 0 }, { PUSH_B, 0, 0 }, { POP_F, 0, 0 }, { POP_B, 0, 0 } };
     std::vector<TProg> seqs = sequences( alpha, 1 );
     { std::vector<TProg> two = { { { PUSH_F, 0, 0 }, { POP_B, 0, 0 } }, { { PUSH_B, 0, 0 }, { POP_F, 0, 0 } }, { { POP_F, 0, 0 }, { PUSH_B, 0, 0 } }, { { POP_B, 0, 0 }, { POP_F, 0, 0 } }, { { PUSH_F, 0, 0 }, { PUSH_B, 0, 0 } } };
